@@ -255,6 +255,28 @@ def run_apalache(module, invs, expect_error=()):
     return out
 
 
+def run_tlaps(module="DurationLemmas.tla"):
+    """L1'' (TLAPS): machine-checked proofs of the lemmas of the abstract Duration type for all integers and any
+    constants (spec/tlaps).  The proof cache is removed first so that every obligation is re-proved."""
+    t = time.time()
+    d = os.path.join(SPEC, "tlaps")
+    shutil.rmtree(os.path.join(d, ".tlacache"), ignore_errors=True)
+    try:
+        rc, o = run(["tlapm", "--threads", "8", "--stretch", "6", module], cwd=d, timeout=1800)
+    except subprocess.TimeoutExpired:
+        o = "timeout"
+    finally:
+        shutil.rmtree(os.path.join(d, ".tlacache"), ignore_errors=True)
+    m = re.search(r"All (\d+) obligations? proved", o)
+    # the proofs are about the specification, not about the code: an unproved obligation (back-end time-outs on a
+    # loaded machine) is reported in the evidence, it is neither a violation nor a reason to distrust the trace check
+    if not m:
+        f = re.search(r"(\d+)/(\d+) obligations failed", o)
+        return {"module": module, "outcome": "NOT fully proved" + (" (%s of %s obligations failed)" % f.groups() if f else ""),
+                "obligations_proved": 0, "wall_s": round(time.time() - t, 1)}
+    return {"module": module, "outcome": "all obligations proved", "obligations_proved": int(m.group(1)), "wall_s": round(time.time() - t, 1)}
+
+
 def load_known():
     if not os.path.exists(KNOWN):
         return {"findings": []}
